@@ -29,6 +29,8 @@ impl UBig {
         let mut exp = 1;
         let mut pows = vec![factor.sqr()];
         loop {
+            #[cfg(dashu_verif)]
+            dashu_base::verif::tick(dashu_base::verif::LOOP_REMOVE);
             let last = pows.last().unwrap();
             let (new_q, r) = (&q).div_rem(last);
             if !r.is_zero() {
